@@ -6,7 +6,15 @@ import CJ.Drv.Util
 Bytes are hex (`-` = empty); a name is its labels in hex joined by `.` (`@` = the root name, a label
 `-` is the empty label); a question is `name/type/class`, a record `name/type/class/ttl/data`; lists are
 joined by `;` (empty field = empty list). Primitive results for the obfuscators come as a table
-`key=value;…` computed by the harness with the real libraries. -/
+`key=value;…` computed by the harness with the real libraries.
+
+The DNS channel: `query|enc|dom|id` (`send` from the base32 text on) → `ok <wire hex>` / `err …`;
+`respfor|hd|q|an|ns|ar|dom|maxudp|tbl` (`responseFor`; `tbl` = `b32:<text hex>=<decoded hex | FAIL>;…`,
+a text that is not in the table does not decode) → `nil` or `resp <message> <payload hex | none>`;
+`udpresp|hd|q|an|ns|ar|payload` (`dnsRespToUDPResp`) → `ok <wire hex>` / `err …`;
+`resppayload|buf|dom` (`recvLoop` + `dnsResponsePayload`) → `payload <hex>` (`payload -` for a nil or
+empty payload and for a datagram that does not parse);
+`lenient|buf` → the message `MessageFromWireFormat` returns next to its error, printed like `parse`. -/
 namespace CJ.Drv.Codec
 open CJ.Codec CJ.Drv
 
@@ -110,6 +118,22 @@ def handle (args : List String) : Option String :=
     some (match recvEncoded (← parseName n) (← parseName dom) with
       | some e => "ok " ++ toHex e
       | none => "none")
+  | ["query", enc, dom, id] => do
+    some (showOutcome toHex (buildQuery (← parseHex enc) (← parseName dom) (← parseU16 id)))
+  | ["respfor", hd, q, an, ns, ar, dom, maxudp, tbl] => do
+    -- tbl: `b32:<text hex>=<decoded hex | FAIL>;…` (the empty text has the key `b32:-`)
+    let t ← parseTable tbl
+    let dec : Bytes → Option Bytes := fun text => look t s!"b32:{toHex text}"
+    some (match responseFor (← parseMessage hd q an ns ar) (← parseName dom) (← maxudp.toNat?) dec with
+      | none => "nil"
+      | some (resp, payload) =>
+        "resp " ++ showMessage resp ++ " " ++ (match payload with | none => "none" | some b => toHex b))
+  | ["udpresp", hd, q, an, ns, ar, payload] => do
+    some (showOutcome toHex (udpResponse (← parseMessage hd q an ns ar) (← parseHex payload)))
+  | ["resppayload", buf, dom] => do
+    -- a nil payload and an empty one are the same packet for the requester's queue
+    some ("payload " ++ toHex ((responsePayload (← parseHex buf) (← parseName dom)).getD []))
+  | ["lenient", buf] => do some (showMessage (lenientParse (← parseHex buf)))
   | ["obfs", "ctr-obf", draws, rb, pt, publen, pub, tbl] => do
     let C := tableCrypto (← parseTable tbl)
     some (showOutcome toHex (ctrObfuscate C (← (fields draws ",").mapM parseHex) (← parseByte rb) (← parseHex pt)
